@@ -98,6 +98,11 @@ class CallMixin:
             return self.call_lambda(fn, args, kwargs, fr, node)
         if k == 'seqmethod':
             return self.seq_method(fn, args, kwargs, fr, node)
+        if k == 'contractfn':
+            c = self.reg.get(fn.key)
+            if c is None:
+                raise Unsupported(f"no contract {fn.key} for function-valued variable")
+            return self.apply_contract(c, None, self.bind_contract(c, args, kwargs), fr, node)
         if k == 'spec':
             raise Unsupported(f"spec function {fn.name} called in code")
         raise Unsupported(f"call kind {k}")
@@ -284,7 +289,7 @@ class CallMixin:
         fi = self.repo.lookup_method(cls, '__init__')
         if c is not None and not (self.target.cls == cls and self.target.name == '__init__' and self.inline_target):
             bound = self.bind_contract(c, [obj] + list(args), kwargs, fi)
-            self.apply_contract(c, fi, bound, fr, node)
+            self.apply_contract(c, fi, bound, fr, node, fresh_self=True)
             return obj
         if fi is None:
             return obj
@@ -349,7 +354,7 @@ class CallMixin:
             bound[k] = v
         return bound
 
-    def apply_contract(self, c: Contract, fi, bound, fr, node):
+    def apply_contract(self, c: Contract, fi, bound, fr, node, fresh_self=False):
         """Modular call: assert pre, havoc modifies, assume post."""
         if fr.noforks and (c.modifies or c.allocates or c.may_raise or c.raises) and not c.pure:
             raise Unsupported(f"effectful contract call {c.key} in a quantified context")
@@ -382,7 +387,7 @@ class CallMixin:
             ty = parse_type(ts)
             v = vars_[n]
             if ty.kind == 'ref' and isinstance(v, VRef):
-                if not ty.nullable:
+                if not ty.nullable and v.nullable:
                     self.oblige('pre@call', v.z != 0, fr, node, info=f"{c.key}: {n} is not None")
                 if ty.cls in self.repo.classes and not (v.cls and self.repo.is_subclass(v.cls, ty.cls)):
                     self.oblige('pre@call', z3.Or(v.z == 0, self.isinstance_z(v, ty.cls)), fr, node,
@@ -406,6 +411,8 @@ class CallMixin:
         for m in c.modifies:
             if '@' in m:
                 fname, at = m.split('@', 1)
+                if fresh_self and at.strip() == 'self':
+                    continue    # cells of a freshly allocated object are unconstrained already
                 ref = self.ev_spec_value(at, sf)
                 tree = self.heap_tree(fname, getattr(ref, 'cls', None))
                 fv = fresh(type_of(sel(tree, z3.IntVal(0))), self.fresh_name(f"hv.{fname}"))
